@@ -8,7 +8,10 @@ Bind:  (spec -> code) the TLC-enumerated shape table is replayed into
        pydrex.stats.resample_orientations (ndarray and nested-list inputs) and the outcome /
        output shapes are compared with the table;
        (code -> spec) the real function is called with real seeds on scenario classes
-       N x M x volume class x n_samples; per (snapshot, grain) integer facts are logged and
+       N x M x volume class x n_samples - including "drift" stacks (consecutive snapshots ~1e-9
+       apart, equal grains swapping rank) and pooled replicate calls (same inputs, distinct
+       seeds, counts added) for n_samples = 1, default, and 1 < n_samples < M;
+       per (snapshot, grain) integer facts are logged and
        judged by TLC (ResampleTrace): pair membership, zero-volume grains, 6-sigma counts,
        shapes, default n_samples, reproducibility, ValueError for malformed shapes.
 The harness only builds inputs, counts bit-equal rows and writes integers; the laws are in
@@ -20,7 +23,7 @@ import re
 
 import numpy as np
 
-from harness.common import SEED, Check, MachineryError, parse_printed_json, quiet_pydrex, run_tlc, scratch, write_ndjson
+from harness.common import SEED, Check, MachineryError, cap, parse_printed_json, quiet_pydrex, run_tlc, scratch, write_ndjson
 
 PID = "C15"
 TRACE_DEFECT = "trace-"  # clauses of the trace spec that blame the recorder, not PyDRex
@@ -138,8 +141,11 @@ def project_snapshot(in_o, in_f, out_o, out_f):
     return cnt, unp
 
 
-def record_call(fn, o, f, nreq, seed, tid, meta, nums=None, D=None):
-    """Run fn twice with the same seed; return the trace lines of this call."""
+def record_call(fn, o, f, nreq, seed, tid, meta, nums=None, D=None, more_seeds=()):
+    """Run fn twice with the same seed (reproducibility), then once per seed in `more_seeds` on the
+    same inputs; return the trace lines: one call line, one snap line per snapshot with the counts
+    pooled over all successful calls, and one call line per replicate whose outcome or shapes
+    differ from the first call."""
     exc, out = call(fn, o, f, nreq, seed)
     osh, vsh, repro = [], [], True
     if out is not None:
@@ -153,30 +159,67 @@ def record_call(fn, o, f, nreq, seed, tid, meta, nums=None, D=None):
     lines = [dict(tid=tid, ev="call", os=oshape, fs=fshape, nreq=int(nreq), exc=exc, osh=osh, vsh=vsh, repro=repro, stat=bool(stat), **meta)]
     ascending = None
     if stat:
+        outs_o, outs_f, odd = [out[0]], [out[1]], []
+        for s2 in more_seeds:
+            e2, o2 = call(fn, o, f, nreq, s2)
+            if o2 is not None and o2[0].shape == out[0].shape and o2[1].shape == out[1].shape:
+                outs_o.append(o2[0])
+                outs_f.append(o2[1])
+            elif len(odd) < 3:
+                odd.append(dict(tid=tid, ev="call", os=oshape, fs=fshape, nreq=int(nreq), exc=e2, osh=[] if o2 is None else [int(x) for x in o2[0].shape],
+                                vsh=[] if o2 is None else [int(x) for x in o2[1].shape], repro=True, stat=False, replicate_seed=int(s2), **meta))
+        all_o = np.concatenate(outs_o, axis=1) if len(outs_o) > 1 else out[0]
+        all_f = np.concatenate(outs_f, axis=1) if len(outs_f) > 1 else out[1]
         ascending = True
+        fa = np.asarray(f, dtype=np.float64)
         for i in range(oshape[0]):
-            cnt, unp = project_snapshot(np.asarray(o)[i], np.asarray(f)[i], out[0][i], out[1][i])
-            lines.append(dict(tid=tid, ev="snap", i=i + 1, D=int(D), n=int(vsh[1]), num=[int(x) for x in nums[i]], cnt=cnt, unp=unp))
+            cnt, unp = project_snapshot(np.asarray(o)[i], fa[i], all_o[i], all_f[i])
+            num = np.asarray(nums[i], dtype=np.int64)
+            dev = float(np.max(np.abs(fa[i] - num / D)))  # distance of the float volumes from the declared grid num/D
+            lines.append(dict(tid=tid, ev="snap", i=i + 1, D=int(D), n=int(all_f.shape[1]), calls=len(outs_f), num=[int(x) for x in num], cnt=cnt, unp=unp,
+                              dev_e12=cap(dev * 1e12), zex=bool(np.array_equal(fa[i] == 0.0, num == 0))))
             ascending = ascending and bool(np.all(np.diff(out[1][i]) >= 0))
+        lines += odd
     return lines, ascending
 
 
+DRIFT_EPS = (0.0, 2e-9, -2e-9, 1e-9, -1e-9)
+
+
 def build_scenario(sc):
-    """Concrete inputs of a scenario class; every random choice derives from SEED."""
-    rng = np.random.default_rng([abs(SEED), sc["N"], sc["M"], VOLUME_CLASSES.index(sc["cls"]) if sc["cls"] in VOLUME_CLASSES else 9, sc["nreq"] % 1000003, sc["rep"], sc.get("salt", 0)])
+    """Concrete inputs of a scenario class; every random choice derives from SEED.
+
+    Returns orientations, float volumes, the declared integer numerators per snapshot, D, the seed
+    of the first call and the seeds of the replicate calls (sc["calls"] - 1 of them).
+    Class "drift": all snapshots share one nominal vector num/D (with duplicate grains); snapshot
+    j moves pairs of non-empty grains by +/- DRIFT_EPS[j] (sum preserved), so consecutive snapshots
+    differ by ~1e-9 and equal grains swap rank from one snapshot to the next."""
+    ALL = VOLUME_CLASSES + ("drift",)
+    rng = np.random.default_rng([abs(SEED), sc["N"], sc["M"], ALL.index(sc["cls"]) if sc["cls"] in ALL else 9, sc["nreq"] % 1000003, sc["rep"], sc.get("salt", 0), sc.get("calls", 1)])
     N, M = sc["N"], sc["M"]
     nums, D = [], None
-    for _ in range(N):
-        v, D = volume_numerators(sc["cls"], M, rng)
-        nums.append(v)
-    f = np.array([v / D for v in nums], dtype=np.float64)
+    if sc["cls"] == "drift":
+        v, D = volume_numerators("duplicates" if M > 2 else "uniform", M, rng)
+        pos = np.flatnonzero(v > 0)
+        rng.shuffle(pos)
+        pattern = np.zeros(M)
+        half = len(pos) // 2
+        pattern[pos[:half]] = 1.0
+        pattern[pos[half : 2 * half]] = -1.0
+        nums = [v] * N
+        f = np.array([v / D + DRIFT_EPS[j % len(DRIFT_EPS)] * pattern for j in range(N)], dtype=np.float64)
+    else:
+        for _ in range(N):
+            v, D = volume_numerators(sc["cls"], M, rng)
+            nums.append(v)
+        f = np.array([v / D for v in nums], dtype=np.float64)
     o = _rotations((N, M), rng)
-    seed = int(rng.integers(0, 2**31 - 1))
-    return o, f, nums, D, seed
+    seeds = [int(x) for x in rng.choice(2**31 - 1, size=sc.get("calls", 1), replace=False)]
+    return o, f, nums, D, seeds[0], seeds[1:]
 
 
 def n_label(nreq, M):
-    return {0: "default", 1: "1", 10000: "1e4", 1000000: "1e6"}.get(nreq, "M" if nreq == M else str(nreq))
+    return {0: "default", 1: "1", 10000: "1e4", 1000000: "1e6"}.get(nreq, "M" if nreq == M else "M-1" if nreq == M - 1 else "M/2" if nreq == M // 2 else str(nreq))
 
 
 # ----------------------------------------------------------------------------- trace validation
@@ -251,8 +294,21 @@ def make_sampler(kind):
         if kind == "default-n-off" and n_samples is None:
             n = M + 1
         oo, ff = np.empty((N, n, 3, 3)), np.empty((N, n))
+        cached = None
         for i in range(N):
-            if kind == "uniform":
+            if kind == "stale-sort-cache":  # sort / cumulative sum reused while the volumes are "close"
+                if cached is None or not np.allclose(f[i], cached[0]):
+                    s = np.argsort(f[i])
+                    cum = f[i][s].cumsum()
+                    cum[-1] = 1.0
+                    cached = (f[i], s, cum)
+                pos = np.searchsorted(cached[2], rng.random(n))
+                oo[i] = o[i][cached[1]][pos]
+                ff[i] = cached[0][cached[1]][pos]
+                continue
+            if kind == "without-replacement" and 1 < n < M:
+                idx = rng.choice(M, size=n, replace=False, p=f[i] / f[i].sum())
+            elif kind == "uniform":
                 idx = rng.integers(0, M, n)
             elif kind == "choice":
                 idx = rng.choice(M, size=n, p=f[i] / f[i].sum())
@@ -279,7 +335,10 @@ CONTROL_SAMPLERS = {
     "cross-snapshot": (dict(N=3, M=5, cls="simplex", nreq=0), ("output-pair-not-an-input-pair",)),
     "unseeded": (dict(N=1, M=50, cls="uniform", nreq=0), ("not-reproducible-for-equal-seeds",)),
     "default-n-off": (dict(N=3, M=2, cls="uniform", nreq=0), ("orientation-output-shape", "volume-output-shape")),
+    "stale-sort-cache": (dict(N=3, M=5, cls="drift", nreq=0), ("output-pair-not-an-input-pair",)),
+    "without-replacement": (dict(N=1, M=8, cls="dominant", nreq=4, calls=500), ("count-outside-6-sigma",)),
     "choice": (dict(N=3, M=50, cls="zeros", nreq=10000), ()),
+    "choice-pooled-drift": (dict(N=3, M=8, cls="drift", nreq=7, calls=400), ()),
 }
 
 
@@ -294,8 +353,8 @@ def run_controls(chk, d, entries):
     tid = 0
     for kind, (sc, clauses) in CONTROL_SAMPLERS.items():
         sc = dict(sc, rep=0, salt=77)
-        o, f, nums, D, seed = build_scenario(sc)
-        ls, _ = record_call(make_sampler(kind), o, f, sc["nreq"], seed, tid, dict(cls=sc["cls"]), nums, D)
+        o, f, nums, D, seed, more = build_scenario(sc)
+        ls, _ = record_call(make_sampler(kind.split("-pooled")[0]), o, f, sc["nreq"], seed, tid, dict(cls=sc["cls"]), nums, D, more)
         lines += ls
         expect[tid] = (f"sampler:{kind}", clauses)
         tid += 1
@@ -303,7 +362,7 @@ def run_controls(chk, d, entries):
     # (independent of the implementation, so a broken sampler cannot disable the controls)
     good = [
         dict(tid=0, ev="call", os=[1, 5, 3, 3], fs=[1, 5], nreq=12000, exc="None", osh=[1, 12000, 3, 3], vsh=[1, 12000], repro=True, stat=True),
-        dict(tid=0, ev="snap", i=1, D=12, n=12000, num=[0, 3, 0, 4, 5], cnt=[0, 3000, 0, 4000, 5000], unp=0),
+        dict(tid=0, ev="snap", i=1, D=12, n=12000, calls=1, num=[0, 3, 0, 4, 5], cnt=[0, 3000, 0, 4000, 5000], unp=0, dev_e12=2000, zex=True),
     ]
 
     def corrupt(name, clauses, mutate):
@@ -346,6 +405,10 @@ def run_controls(chk, d, entries):
     corrupt("not-reproducible", ("not-reproducible-for-equal-seeds",), lambda ls: ls[0].__setitem__("repro", False))
     corrupt("valid-call-raised", ("valid-input-raised",), lambda ls: (ls[0].update(exc="ValueError", osh=[], vsh=[], stat=False), ls.__delitem__(1)))
     corrupt("snapshot-line-dropped", ("trace-missing-snapshot-lines",), lambda ls: ls.__delitem__(1))
+    corrupt("pooled-over-3-calls", (), lambda ls: (ls[0].update(nreq=4000, osh=[1, 4000, 3, 3], vsh=[1, 4000]), ls[1].update(calls=3)))
+    corrupt("pooled-total-not-multiple", ("trace-snapshot-inconsistent-with-call",), lambda ls: ls[1].update(calls=7))
+    corrupt("volumes-far-from-declared-grid", ("trace-volumes-off-declared-grid",), lambda ls: ls[1].update(dev_e12=20000))
+    corrupt("declared-zero-not-exactly-zero", ("trace-volumes-off-declared-grid",), lambda ls: ls[1].update(zex=False))
     corrupt("count-lost", ("trace-counts-do-not-partition-outputs",), lambda ls: ls[1]["cnt"].__setitem__(int(np.argmax(ls[1]["cnt"])), 3))
     # a malformed table entry reported as accepted / as another exception class
     bad = next(e for e in entries if e["exc"] == "ValueError" and e["fault"] == "M-mismatch")
@@ -370,6 +433,10 @@ def run_controls(chk, d, entries):
 
 # ----------------------------------------------------------------------------- main
 def scenario_list(tier):
+    """Single-call scenarios (shapes, reproducibility, membership, counts at large n) and pooled
+    scenarios: `calls` calls with distinct seeds on the same inputs whose per-grain counts are
+    added, so that the 6-sigma clause has power for small n_samples too - in particular for
+    1 < n_samples < M (downsampling), n_samples = 1 and the default."""
     quick = tier != "thorough"
     reps = 3 if quick else 24
     out = []
@@ -383,6 +450,22 @@ def scenario_list(tier):
                 if not quick:
                     for rep in range(2 if N == 1 else 1):
                         out.append(dict(N=N, M=M, cls=cls, nreq=1000000, rep=rep))
+    # slow drift: consecutive snapshots ~1e-9 apart, equal grains swapping rank
+    for N in (2, 3, 5):
+        for M in (2, 5, 50):
+            for nreq in (0, 10000) + (() if quick else (1, M - 1)):
+                for rep in range(2 if quick else 12):
+                    out.append(dict(N=N, M=M, cls="drift", nreq=nreq, rep=rep))
+    # pooled replicates
+    draws = 3000 if quick else 20000
+    for N in (1, 3):
+        for M in (5, 8, 50):
+            for cls in VOLUME_CLASSES + (("drift",) if N > 1 else ()):
+                for nreq in (1, 0, M // 2, M - 1):
+                    n = M if nreq == 0 else nreq
+                    calls = min(-(-draws // n), 1500 if quick else 6000)
+                    for rep in range(1 if quick else 3):
+                        out.append(dict(N=N, M=M, cls=cls, nreq=nreq, rep=rep, calls=calls))
     return out
 
 
@@ -445,17 +528,18 @@ def main(tier):
     n_asc = n_stat = 0
     first_stat_tid = tid
     for sc in scen:
-        o, f, nums, D, seed = build_scenario(sc)
-        ls, asc = record_call(fn, o, f, sc["nreq"], seed, tid, dict(cls=sc["cls"]), nums, D)
+        o, f, nums, D, seed, more = build_scenario(sc)
+        ls, asc = record_call(fn, o, f, sc["nreq"], seed, tid, dict(cls=sc["cls"]), nums, D, more)
         meta[tid] = dict(kind="scenario", sc=sc, seed=seed)
         lines += ls
         tid += 1
-        chk.count(("scenario", sc["N"], sc["M"], sc["cls"], sc["nreq"], sc["rep"]))
-        for s in ls[1:]:
+        chk.count(("scenario", sc["N"], sc["M"], sc["cls"], sc["nreq"], sc["rep"], sc.get("calls", 1)))
+        chk.cov["evaluations"] += sc.get("calls", 1) - 1
+        for s in (x for x in ls if x["ev"] == "snap"):
             for k in range(len(s["num"])):
                 den = 36 * s["n"] * s["num"][k] * (s["D"] - s["num"][k]) + 36 * s["D"] ** 2
                 chk.maximum("six_sigma_region_used_fraction", (s["cnt"][k] * s["D"] - s["n"] * s["num"][k]) ** 2 / den)
-        if asc is not None and len(ls) > 1 and ls[1]["n"] > 1:
+        if asc is not None and len(ls) > 1 and ls[1]["ev"] == "snap" and ls[1]["n"] > ls[1]["calls"]:
             n_stat += 1
             n_asc += bool(asc)
     t5 = next(t for t in range(first_stat_tid, tid) if meta[t]["sc"]["M"] == 5 and meta[t]["sc"]["nreq"] == 0)
@@ -488,15 +572,15 @@ def main(tier):
                 excursions.setdefault(t, []).append((line, k))
                 continue
             chk.violation(dict(clause=clause, volumes=sc["cls"], n=n_label(sc["nreq"], sc["M"]), M=sc["M"]),
-                          f"trace spec rejected scenario {sc} (seed {m['seed']}): {clause} at grain {k}", dict(kind="scenario", scenario=sc, seed=m["seed"], line=lines[line - 1]))
+                          f"trace spec rejected scenario {sc} (seed {m['seed']}): {clause}" + (f" at grain {k}" if k else "") + f": {json.dumps(lines[line - 1])[:300]}", dict(kind="scenario", scenario=sc, seed=m["seed"], line=lines[line - 1]))
         # a 6-sigma excursion is reported only when two fresh seeds of the same scenario show it too
         if excursions:
             clines, cmeta, ct = [], {}, 0
             for t in excursions:
                 for salt in (1, 2):
                     sc = dict(meta[t]["sc"], salt=salt)
-                    o, f, nums, D, seed = build_scenario(sc)
-                    ls, _ = record_call(fn, o, f, sc["nreq"], seed, ct, dict(cls=sc["cls"]), nums, D)
+                    o, f, nums, D, seed, more = build_scenario(sc)
+                    ls, _ = record_call(fn, o, f, sc["nreq"], seed, ct, dict(cls=sc["cls"]), nums, D, more)
                     clines += ls
                     cmeta[ct] = t
                     ct += 1
@@ -518,7 +602,8 @@ def main(tier):
         run_controls(chk, d, entries)
     return chk.finish(
         rule="table: every (orientation shape, fraction shape, n_samples) entry of the TLC-enumerated shape table, replayed as ndarray and as nested lists, distinct by tuple; "
-        "scenarios: N in {1,3} x M in {1,2,5,50} x volume class (uniform, zeros, duplicates, dominant, random simplex; rational k/D) x n_samples in {1, default, M, 1e4[, 137, 1e6]} x seeded repetitions, distinct by that tuple",
+        "scenarios: N in {1,3} x M in {1,2,5,50} x volume class (uniform, zeros, duplicates, dominant, random simplex; rational k/D) x n_samples in {1, default, M, 1e4[, 137, 1e6]} x seeded repetitions; "
+        "drift stacks N in {2,3,5} x M in {2,5,50} (snapshots 1e-9 apart, rank swaps); pooled replicates N in {1,3} x M in {5,8,50} x class x n_samples in {1, default, M//2, M-1} with counts added over up to 1500 (6000) calls; distinct by that tuple",
         exhaustive=False,
         trusted=["numpy bit-equal row matching attributes each output pair to an input grain (orientations of a snapshot are pairwise distinct)",
                  "6-sigma binomial region: a correct sampler leaves it with probability < 1e-6 per grain; excursions are re-tested on two fresh seeds before being reported"],
@@ -542,8 +627,8 @@ def replay(obj):
         return 0 if exc == e["exc"] else 1
     if r.get("kind") == "scenario":
         sc = r["scenario"]
-        o, f, nums, D, seed = build_scenario(sc)
-        ls, _ = record_call(stats.resample_orientations, o, f, sc["nreq"], seed, 0, dict(cls=sc["cls"]), nums, D)
+        o, f, nums, D, seed, more = build_scenario(sc)
+        ls, _ = record_call(stats.resample_orientations, o, f, sc["nreq"], seed, 0, dict(cls=sc["cls"]), nums, D, more)
         with scratch() as d:
             rejects, _ = validate(ls, d, "replay")
         print(json.dumps(ls)[:2000])
